@@ -198,6 +198,9 @@ fn check_text_reading(data: &[u8], cuts: &[usize], st: Option<&mut Stats>, alt: 
 }
 
 fn eval(data: &[u8], cuts: &[usize], st: &mut Stats, enumerated: bool, origin: &str) {
+    if matches!(origin, "whitespace-control-inside-sequence" | "truncated-colour-at-end-of-sequence" | "aborted-or-overflowed-sequence" | "colour-values" | "abandoned-with-open-colon-group") && crate::tiny_skip(8) {
+        return;
+    }
     st.eval();
     if enumerated {
         st.nontrivial_enum();
